@@ -44,7 +44,10 @@ def _histories(draw):
         op = draw(st.sampled_from(["update", "update", "update", "empty"]))
         m = draw(st.integers(1, 3))
         steps.append({"op": op, "m": m, "which": draw(st.integers(0, nm - 1)), "scale": draw(st.sampled_from([0.0, 0.3, 1.0, 3.0, 3.0, 8.0, 40.0, 2000.0])),
-                      "dir": [draw(st.floats(-1, 1)) for _ in range(3)], "tie": draw(st.booleans()), "rlog": draw(st.sampled_from([-2.0, 0.0, 1.0]))})
+                      "dir": [draw(st.floats(-1, 1)) for _ in range(3)], "tie": draw(st.booleans()), "rlog": draw(st.sampled_from([-2.0, 0.0, 1.0, -10.0])),
+                      # several sensors reporting in the same step: the innovation covariance is stacked (dimension nobs*m), and with
+                      # precise sensors its determinant leaves the floating-point range although every entry is ordinary
+                      "nobs": draw(st.sampled_from([1, 1, 1, 1, 3, 12, 30]))})
     # a third of the cases at orbital magnitudes: states ~4e4 with ~0.1 m sigmas, where algebraically equal covariance formulas
     # differ by catastrophic cancellation
     orbital = draw(st.sampled_from([False, False, True]))
@@ -108,8 +111,13 @@ def _check_mixture(mm, rec, where):
         raise Violation("combined_covariance", f"{where}: combined covariance is not the moment-matched mixture covariance (max diff {np.abs(mm.est_p - cov).max():.3e})")
     if float(np.abs(mm.est_p - mm.est_p.T).max()) > 1e-12 * (1.0 + float(np.abs(cov).max())):
         raise Violation("combined_symmetry", f"{where}: combined covariance not symmetric")
-    if float(np.linalg.eigvalsh((mm.est_p + mm.est_p.T) / 2).min()) < -1e-10 * (1.0 + float(np.abs(cov).max())):
-        raise Violation("combined_psd", f"{where}: combined covariance not positive semi-definite")
+    # a mixture of positive semi-definite covariances is positive semi-definite; what the models themselves lost (a UKF update with a
+    # nearly singular stacked innovation covariance, C06's subject) is not charged to the mixture
+    own = min(0.0, min(float(np.linalg.eigvalsh((pi + pi.T) / 2).min()) for pi in ps))
+    if own < 0:
+        rec.label("a_model_covariance_is_indefinite")
+    if float(np.linalg.eigvalsh((mm.est_p + mm.est_p.T) / 2).min()) < own * (1 + 1e-6) - 1e-10 * (1.0 + float(np.abs(cov).max())):
+        raise Violation("combined_psd", f"{where}: combined covariance not positive semi-definite (lowest eigenvalue {np.linalg.eigvalsh((mm.est_p + mm.est_p.T) / 2).min():.3e}, lowest of any model {own:.3e})")
     closed = FilterFlag.ADAPTIVE_ESTIMATION_CLOSE in mm.flags
     if closed:
         cf = mm.converged_filter
@@ -117,8 +125,14 @@ def _check_mixture(mm, rec, where):
             raise Violation("closure_filter", f"{where}: estimation closed but no filter handed back")
         if float(np.abs(cf.est_x - mm.est_x).max()) > 0 or float(np.abs(cf.est_p - mm.est_p).max()) > 0:
             raise Violation("closure_state", f"{where}: the filter handed back does not carry the combined estimate/covariance")
+        # the filter handed back replaces the nominal filter and is propagated from ITS time at the next step: it has to stand at
+        # the epoch (and on the target) of the estimate it carries
+        if cf.time != mm.time or cf.target_id != mm.target_id:
+            raise Violation("closure_epoch", f"{where}: the filter handed back stands at time {cf.time!r} for target {cf.target_id}, the estimate it carries belongs to time {mm.time!r}, target {mm.target_id}")
         if len(mm.models) == 1:
             only = mm.models[0]
+            if getattr(only, "time", cf.time) != cf.time:
+                raise Violation("closure_epoch", f"{where}: the filter handed back stands at time {cf.time!r}, the surviving model at {only.time!r}")
             if float(np.abs(cf.est_x - only.est_x).max()) > 1e-12 * scale or float(np.abs(cf.est_p - only.est_p).max()) > 1e-12 * (1 + float(np.abs(only.est_p).max())):
                 raise Violation("closure_survivor", f"{where}: one model survives but the filter handed back differs from it")
         if FilterFlag.ADAPTIVE_ESTIMATION_START in mm.flags:
@@ -176,7 +190,10 @@ def history(c, rec):
         h = np.zeros((m, 4))
         for i in range(m):
             h[i, i] = 1.0
-        r = (10.0 ** stp["rlog"]) * 0.01 * np.eye(m)
+        # (identical simultaneous observations make the stacked innovation covariance singular up to R: with R/P below ~1e-6 the
+        # models' own UKF updates lose positive definiteness, which is C06's numerical limit, not the subject here)
+        rlog = stp["rlog"] if stp.get("nobs", 1) == 1 else max(stp["rlog"], -2.0)
+        r = (10.0 ** rlog) * 0.01 * np.eye(m)
         j = stp["which"] % len(mm.models)
         target = h @ mm.models[j].pred_x
         if stp["tie"] and len(mm.models) >= 2:
@@ -184,14 +201,23 @@ def history(c, rec):
         d = np.array(stp["dir"][:m])
         d = d / (np.linalg.norm(d) + 1e-12)
         z = target + stp["scale"] * math.sqrt(r[0, 0] + 1.0) * d
-        mm.update([_Obs(h, r, z)])
+        nobs = stp.get("nobs", 1)
+        mm.update([_Obs(h, r, z) for _ in range(nobs)])
+        if nobs > 1:
+            rec.label(f"simultaneous_observations:{nobs}")
         # ---- reference ---------------------------------------------------------------------------
         logl = []
+        conds = [0.0]
         for mod in mm.models if len(mm.models) == n_before else []:
             nu = np.asarray(mod.innovation, dtype=float)
             s = np.asarray(mod.innov_cvr, dtype=float)
             sign, logdet = np.linalg.slogdet(s)
-            logl.append(-0.5 * float(nu @ np.linalg.solve(s, nu)) - 0.5 * (m * math.log(2 * math.pi) + logdet))
+            logl.append(-0.5 * float(nu @ np.linalg.solve(s, nu)) - 0.5 * (len(nu) * math.log(2 * math.pi) + logdet))
+            # rounding of the quadratic form grows with the condition number of the stacked innovation covariance; the
+            # probabilities inherit it (d w ~ d log-likelihood)
+            conds.append(float(np.linalg.cond(s)) * max(1.0, abs(2 * logl[-1])))
+            if logdet < -700 or logdet > 700:
+                rec.label("determinant_outside_float_range")
         cls = "consistent" if stp["scale"] <= 3 else ("absurd" if stp["scale"] >= 2000 else "selective")
         trace.append(cls)
         closed = _check_mixture(mm, rec, f"step {k} ({cls})")
@@ -208,11 +234,14 @@ def history(c, rec):
                 # documented reset: SMM sets the weights to uniform, GPB1 sets the likelihoods to one (weights = prior mode probabilities)
                 reset = np.ones(n_before) / n_before if kind == "smm" else prior / prior.sum()
                 ref_bayes = np.exp(logpost - logmass) if np.isfinite(logmass) else reset
-                if not (np.allclose(w, reset, atol=1e-12) or np.allclose(w, ref_bayes, atol=1e-9)):
+                if not (np.allclose(w, reset, atol=1e-12) or np.allclose(w, ref_bayes, atol=1e-9 + 16 * np.finfo(float).eps * max(conds))):
                     raise Violation("underflow_outcome", f"step {k}: total likelihood mass underflows (log mass {logmass:.1f}); weights {w.tolist()} are neither the documented reset {reset.tolist()} nor Bayes' rule {ref_bayes.tolist()}")
             else:
                 ref = np.exp(logpost - logmass)
-                if float(np.abs(w - ref).max()) > 1e-9:
+                btol = 1e-9 + 16 * np.finfo(float).eps * max(conds)
+                if btol > 1e-6:
+                    rec.label("ill_conditioned_innovation_covariance")
+                if float(np.abs(w - ref).max()) > btol:
                     raise Violation("bayes_rule", f"step {k}: model probabilities {w.tolist()} != prior x Gaussian likelihood, renormalised {ref.tolist()} (prior {prior.tolist()})")
                 if float(np.min(logl)) < -700:
                     underflow = True
@@ -240,7 +269,7 @@ def history(c, rec):
             if len(mm.models) > 1 and kind == "smm":
                 raise Violation("closure_models", f"step {k}: SMM closed with {len(mm.models)} models left")
             if kind == "gpb1":
-                gate = bool(oneSidedChiSquareTest(mm.nis, 1 - c["pct"], m))
+                gate = bool(oneSidedChiSquareTest(mm.nis, 1 - c["pct"], m * stp.get("nobs", 1)))
                 if not gate:
                     raise Violation("closure_gate", f"step {k}: GPB1 closed although the combined NIS {mm.nis!r} fails the gate")
             break
